@@ -96,11 +96,20 @@ func (d *Dispatcher) updateDispatchedAmount(
 	da := d.GetDispatchedAmount(ctx, sourceID, destID, denom)
 	amount := da.AmountDispatched
 
+	// NOTE: Add panics on overflow, and a panic here would abort the whole
+	// transfer instead of only skipping the statistics update.
+	var err error
 	if newAmount.Incoming.IsPositive() {
-		amount.Incoming = amount.Incoming.Add(newAmount.Incoming)
+		amount.Incoming, err = amount.Incoming.SafeAdd(newAmount.Incoming)
+		if err != nil {
+			return err
+		}
 	}
 	if newAmount.Outgoing.IsPositive() {
-		amount.Outgoing = amount.Outgoing.Add(newAmount.Outgoing)
+		amount.Outgoing, err = amount.Outgoing.SafeAdd(newAmount.Outgoing)
+		if err != nil {
+			return err
+		}
 	}
 
 	return d.SetDispatchedAmount(ctx, sourceID, destID, denom, amount)
